@@ -287,9 +287,10 @@ func init() {
 			{Scenario: "oob", Stratum: "", Quick: 900, Thorough: 30000, PerJob: 8},
 			{Scenario: "oob", Stratum: "nofec", Quick: 150, Thorough: 3000, PerJob: 8},
 			{Scenario: "peers", Stratum: "oob", Quick: 250, Thorough: 8000, PerJob: 4},
+			{Scenario: "oob-successor", Stratum: "", Quick: 400, Thorough: 12000, PerJob: 8},
 		},
 		QuickBudget: 60 * time.Second, ThoroughBudget: 25 * time.Minute,
-		Rule: "evaluations = seeded simulated runs: a bidirectional transfer with FEC on under the full fault swarm; 1-2 OOB sender actors interleave 5-200 SendOOB calls (payload = unique tag + keyed filler; lengths 0..8, GetOOBMaxSize()-3..GetOOBMaxSize(), +1, and uniform) with the Write traffic at seeded gaps; handlers registered, absent, or registered and replaced by nil, on either side. Oracle: every handler argument equals byte for byte a payload sent to THAT session and arrives at most as often as the network delivered copies of its datagram (counted at the fate decision); oversize and no-FEC calls return an error and put nothing on the wire; the stream, wire (FEC ids contiguous around OOB packets, parity verified) and pool oracles keep holding. 'peers/oob': several sessions on one listener, payloads tagged per session. Non-trivial = a handler was invoked, a fault fired and stream payload was delivered; distinct = distinct event-log hashes",
+		Rule: "evaluations = seeded simulated runs: a bidirectional transfer with FEC on under the full fault swarm; 1-2 OOB sender actors interleave 5-200 SendOOB calls (payload = unique tag + keyed filler; lengths 0..8, GetOOBMaxSize()-3..GetOOBMaxSize(), +1, and uniform) with the Write traffic at seeded gaps; handlers registered, absent, or registered and replaced by nil, on either side. Oracle: every handler argument equals byte for byte a payload sent to THAT session and arrives at most as often as the network delivered copies of its datagram (counted at the fate decision); oversize and no-FEC calls return an error and put nothing on the wire; the stream, wire (FEC ids contiguous around OOB packets, parity verified) and pool oracles keep holding. 'peers/oob': several sessions on one listener, payloads tagged per session. Non-trivial = a handler was invoked, a fault fired and stream payload was delivered; distinct = distinct event-log hashes; scenario oob-successor closes two sessions on caller-owned PacketConns and creates successor sessions with a new conversation on the very same conns (the closed sessions' read loops are still parked there): the first datagrams after the Close are out-of-band messages, which may reach the successor's handler or be lost, never a closed session's handler",
 		Real: realSession, Stub: stubSession,
 		Assumptions: append([]string{"payloads shorter than 8 bytes cannot carry a tag: they are checked by content and by count per length"}, assumeCommon...),
 		WantProbes:  []string{"oob-sent", "oob-sent-at-max", "oob-sent-empty", "oob-oversize-refused", "oob-refused-without-fec", "oob-handler-invoked", "oob-datagram-lost", "oob-datagram-duplicated"},
